@@ -121,7 +121,10 @@ func ModifyNamespace(namespace *models.Namespace, cfg *models.CCConfig, cluster 
 	proxies, err := storeConn.ListProxyMonitorMetrics()
 	if err != nil {
 		log.Warn("list proxies failed, %v", err)
-		return err
+		if err2 := rollbackNamespace(existNamespace, namespace, cfg, storeConn); err2 != nil {
+			return fmt.Errorf("list proxies error:%s, rollback error:%s", err, err2)
+		}
+		return fmt.Errorf("list proxies error:%s, rollback success", err)
 	}
 
 	wg := sync.WaitGroup{}
